@@ -167,20 +167,52 @@ def cv(ctx, obs):
     rd = ctx.dep.analyze(q, data_only=True)
     pools_d = [c for c in rd.calls if any(x in POOLS for x in c.callees)]
     inl = Inliner(r, None, ('rdms', 'ceil_set', 'test_set'))
+    def _restriction(e):
+        """e = X.subsample_pattern(by=.., value=V) / X.subset_pattern(..) -> (X, V) else None"""
+        if isinstance(e, ast.Call) and isinstance(e.func, ast.Attribute) and e.func.attr in ('subsample_pattern', 'subset_pattern'):
+            kw = {k.arg: k.value for k in e.keywords}
+            val = kw.get('value', e.args[1] if len(e.args) > 1 else None)
+            return e.func.value, val
+        return None
+
+    # which pooled predictions are restricted AFTER pooling: X = pool_rdm(..); X.subsample_pattern(..)
+    restricted_after = set()
+    for c in r.calls:
+        if c.attr in ('subsample_pattern', 'subset_pattern') and isinstance(c.node.func, ast.Attribute):
+            recv = inl.inline(c.node.func.value)
+            if isinstance(recv, ast.Call) and any(isinstance(n, ast.Name) and n.id == 'pool_rdm' for n in ast.walk(recv.func)):
+                restricted_after.add(ast.dump(recv))
     for c, cd in zip(pools, pools_d):
         e = inl.inline(c.node.args[0])
         a0 = cd.arg(0) or frozenset()
-        if _root(e) == 'SRC0':
-            obs.check(isinstance(e, ast.Name), 'ND', q, 'upper bound pools all RDMs', f'`{norm(c.node)}`', '',
-                      where(prog, f, c.node))
+        rs = _restriction(e)
+        base = rs[0] if rs else e
+        if _root(base) == 'SRC0':
+            con = 'the upper bound is the pooled RDM of all data RDMs AT THE TEST CONDITIONS (restricted, then pooled)'
+            pooled = inl.inline(c.node)
+            if rs is not None and isinstance(base, ast.Name):
+                v = inl.inline(rs[1]) if rs[1] is not None else None
+                obs.check(v is not None and _root(v) == 'SRC2' and _elem_index(v) == 1, 'NORM-TEST', q, con,
+                          f'`{norm(c.node)[:70]}` pools data restricted by `{ast.unparse(v)[:40] if v is not None else None}`, not by the '
+                          f'test conditions', '', where(prog, f, c.node))
+            elif isinstance(e, ast.Name) and ast.dump(pooled) in restricted_after:
+                obs.bad('NORM-TEST', q, con, f'`{norm(c.node)[:60]}` pools the complete RDMs and the result is restricted to the test '
+                        f'conditions afterwards: the per-RDM normalisation of the pooling (rms / mean and std / ranks) is then taken over '
+                        f'conditions outside the test fold, the pooled RDM is not the optimum at the test conditions and the lower bound '
+                        f'can exceed it', where(prog, f, c.node))
+            elif isinstance(e, ast.Name):
+                obs.unk('NORM-TEST', q, con, f'`{norm(c.node)[:60]}` pools the complete RDMs; no restriction to the test conditions found',
+                        where(prog, f, c.node))
+            else:
+                obs.unk('NORM-TEST', q, con, f'`{norm(c.node)[:60]}`', where(prog, f, c.node))
         else:
             obs.check(depends_on_param(a0, 'ceil_set') and not depends_on_param(a0, 'test_set')
                       and not depends_on_param(a0, 'rdms'), 'NI', q,
                       'lower bound pools the ceiling set only (no explicit flow from test_set / rdms)',
                       f'`{norm(c.node)}` reads {sorted(x for x in a0 if x.startswith("P:"))}', '', where(prog, f, c.node))
-            obs.check(_elem_index(e) == 0, 'NI', q, 'lower bound pools the RDMs entry ([0]) of the ceiling tuple',
+            obs.check(_elem_index(base) == 0, 'NI', q, 'lower bound pools the RDMs entry ([0]) of the ceiling tuple',
                       f'`{norm(c.node)}`', '', where(prog, f, c.node))
-    roots = [_root(inl.inline(c.node.args[0])) for c in pools]
+    roots = [_root((_restriction(inl.inline(c.node.args[0])) or (inl.inline(c.node.args[0]),))[0]) for c in pools]
     obs.check('SRC0' in roots, 'ND', q, 'one prediction (the upper bound) pools all RDMs',
               'no pool_rdm call pools the full `rdms`: the upper noise ceiling is not computed from all data', '',
               where(prog, f, f.node))
